@@ -34,7 +34,7 @@ mc-objs: $(B)/mc/libbabylon_mc.a
 
 $(B)/h/%.o: /verif/harness/%.cpp /verif/rt/bbmc.h
 	@mkdir -p $(dir $@)
-	$(CXX) $(MCFLAGS) -MMD -MP -c $< -o $@
+	$(CXX) $(MCFLAGS) -fno-access-control -MMD -MP -c $< -o $@
 $(B)/litmus: $(B)/h/litmus.o $(B)/bbmc_rt.o
 	$(CXX) -o $@ $^ $(LIBS)
 $(B)/mc_%: $(B)/h/mc_%.o $(B)/bbmc_rt.o $(B)/mc/libbabylon_mc.a
